@@ -406,6 +406,15 @@ def eml_nesting(m, variant):
     return ("Subject: ZB00001\nFrom: a@b.c\nTo: d@e.f\nMIME-Version: 1.0\n" + head + "Content-Type: text/plain\n\nZB00002 body\n").encode()
 
 
+# ---- stored inputs found by the C01 fuzzers whose cost, not whose outcome, is the problem ------------------------------
+@family("ole-forged-stream-size", "doc", variants=("doc",), ms=(1,))
+def ole_forged_stream_size(m, variant):
+    """3.6 KB .doc (atheris): a directory entry declares a stream far larger than the file over a cyclic FAT chain; olefile reads 'sectors' until the declared size is reached."""
+    import os
+    with open(os.path.join(os.path.dirname(os.path.dirname(os.path.dirname(os.path.abspath(__file__)))), "corpus", "c12", "doc-ole-stream-size.bin"), "rb") as fh:
+        return fh.read()
+
+
 def build(name: str, m: int, variant) -> tuple[bytes, str, int]:
     f = FAMILIES[name]
     raw = f["fn"](m, variant)
